@@ -143,6 +143,8 @@ void expect(const std::string& name, bool ok, const std::string& detail = "");
 void witness(const std::string& label);  // reachability witness: path condition is satisfiable here
 void note(const std::string& key, const std::string& value);
 void cut(const std::string& why);  // throw PathCut
+std::vector<std::string> symbols_of(const Real& a);  // names of the symbols the term mentions (syntactically)
+bool mentions(const Real& a, const std::string& name_prefix);
 
 // definedness policy for / and sqrt on symbolic operands
 enum class Def
